@@ -398,7 +398,7 @@ sim_main (int argc, char **argv, const world_t *w)
 {
     const char *mode = NULL, *property = NULL, *file = NULL;
     uint64_t base = 1, first = 0, count = 1, stride = 1, one = 0;
-    int tier = 0, i, recheck = 0;
+    int tier = 0, i, recheck = 0, raw_index = 0;
     double deadline = 0;
     int devnull;
 
@@ -418,6 +418,7 @@ sim_main (int argc, char **argv, const world_t *w)
 	else if (!strcmp (argv[i], "--property") && i + 1 < argc) property = argv[++i];
 	else if (!strcmp (argv[i], "--deadline-ms") && i + 1 < argc) deadline = now_ms () + atof (argv[++i]);
 	else if (!strcmp (argv[i], "--recheck") && i + 1 < argc) recheck = atoi (argv[++i]);
+	else if (!strcmp (argv[i], "--raw-index")) raw_index = 1;     /* run seed = run index: exhaustive enumerations */
 	else if (!strcmp (argv[i], "-v")) sim_verbose = 1;
 	else usage (w);
     }
@@ -484,7 +485,7 @@ sim_main (int argc, char **argv, const world_t *w)
 	for (j = 0; j < count; j++)
 	{
 	    uint64_t idx = first + j * stride;
-	    uint64_t seed = run_seed (base, w->name, property, idx);
+	    uint64_t seed = raw_index ? idx : run_seed (base, w->name, property, idx);
 	    scenario_t sc;
 	    result_t r;
 
